@@ -7,6 +7,7 @@ package main
 // never at the symptom.
 
 import (
+	"github.com/xjslang/xjs/debug"
 	"fmt"
 	"math/rand"
 	"reflect"
@@ -43,7 +44,13 @@ func oaParse(src string) (*ast.Program, []parser.ParserError) {
 	return prog, p.Errors()
 }
 
-func oaCompile(cfg string, prog *ast.Program) string { return compilerOf(cfg).Compile(prog).Code }
+// oaCompile: the text xjs produces for the tree under a configuration; "dbg" = the debug.ToString entry point
+func oaCompile(cfg string, prog *ast.Program) string {
+	if cfg == "dbg" {
+		return debug.ToString(prog)
+	}
+	return compilerOf(cfg).Compile(prog).Code
+}
 
 func oaErrText(errs []parser.ParserError) string {
 	if len(errs) == 0 {
@@ -643,6 +650,15 @@ func oaFirstChar(s ast.Statement) byte {
 	return code[0]
 }
 
+// oaStartsWithUpdate: the statement's text starts with `++` or `--`
+func oaStartsWithUpdate(s ast.Statement) bool {
+	if oaNil(s) {
+		return false
+	}
+	code := oaCompile("c", &ast.Program{Statements: []ast.Statement{s}})
+	return strings.HasPrefix(code, "++") || strings.HasPrefix(code, "--")
+}
+
 // treeNoSemiHazard decides the class "nosemi-hazard" for a tree printed without semicolons:
 // (a) an if with else whose then-branch is not a block (more precisely: ends open);
 // (b) a statement that starts with ( [ - + / or a backtick and follows a statement that ends open;
@@ -662,8 +678,8 @@ func treeNoSemiHazard(p *ast.Program) bool {
 			if !oaEndsOpen(ss[i]) {
 				continue
 			}
-			if strings.IndexByte("([-+/`", oaFirstChar(ss[i+1])) >= 0 {
-				found = true
+			if strings.IndexByte("([-+/`", oaFirstChar(ss[i+1])) >= 0 && !(fixedRestricted && oaStartsWithUpdate(ss[i+1])) {
+				found = true // (`++` / `--` first on a line is a prefix operator of the new statement: restricted production)
 			}
 			if r, ok := oaLastSimple(ss[i]).(*ast.ReturnStatement); ok && oaNil(r.ReturnValue) {
 				found = true
